@@ -318,6 +318,8 @@ package tcell
 //@ func NewEventMouse
 //@   arith bv
 //@   ensures result != nil && result.x == x && result.y == y && result.btn == btn && result.mod == mod
+//@   ensures [stamped-once] calls("time.Now") == 1
+//@   calls [stamped] call("time.Now", ts) ==> result.t == ts
 
 //@ func (*tScreen).clip
 //@   arith bv
@@ -446,6 +448,8 @@ package tcell
 //@   ensures [negative] k == KeyRune && ch < 0 ==> result.key == Key(ch) && result.ch == ch && result.mod == nekMod(k, ch, mod)
 //@   ensures [del] k == KeyRune && ch == 0x7f ==> result.key == KeyBackspace2 && result.mod == mod && result.ch == ch
 //@   ensures [nonnil] result != nil
+//@   ensures [stamped-once] calls("time.Now") == 1
+//@   calls [stamped] call("time.Now", ts) ==> result.t == ts
 
 // ---------------------------------------------------------------------------
 // C17: legacy character sets - encodeRune decision chain and CanDisplay, relative to what the
@@ -855,12 +859,17 @@ package tcell
 // partial match, or the escape timeout has expired - exactly one byte is delivered (lone ESC / Alt prefix / raw
 // byte); otherwise it stops and waits for more input.  Hence it terminates, never reads outside the buffer, returns
 // with the screen lock released, and once the timeout has expired NO byte remains buffered.
+// (esc-carried: the pending-ESC flag a previous call left behind is what the first round of this call sees - an Alt
+// prefix read in one chunk applies to the key completed by the next)
 //@ func (*tScreen).collectEventsFromInput
 //@   arith math
 //@   requires bufwf(buf) && buf != nil && keysNonEmpty(t.keycodes) && valsNonNil(t.keycodes) && !isNil(t.decoder) && t.ti != nil && t.cells.w >= 1 && t.cells.h >= 1
 //@   ensures [drained] expire ==> buf.off == len(buf.buf)
 //@   ensures [wf] bufwf(buf)
+//@   ghost entry: started = false
+//@   ghost loop-end:1: started = true
 //@   loop 1:
+//@     invariant [esc-carried] !started ==> t.escaped == old(t.escaped)
 //@     invariant [wf] bufwf(buf) && keysNonEmpty(t.keycodes) && valsNonNil(t.keycodes) && !isNil(t.decoder) && t.ti != nil && t.cells.w >= 1 && t.cells.h >= 1
 //@     decreases len(buf.buf) - buf.off
 //@   modifies buf.off, buf.lastRead, buf.buf, t.escaped, t.buttondn, t.Mutex
